@@ -1,6 +1,7 @@
 package main
 
 import (
+	"fmt"
 	"go/types"
 	"strings"
 
@@ -12,6 +13,7 @@ import (
 func (P *Program) staticChecks(prop string) []*Obligation {
 	var out []*Obligation
 	out = append(out, P.typeInvImmutable(prop)...)
+	out = append(out, P.funcTypeFrames(prop)...)
 	return out
 }
 
@@ -147,4 +149,78 @@ func (P *Program) typeInvImmutable(prop string) []*Obligation {
 
 func propAssumptions(prop string) []string {
 	return nil
+}
+
+// funcTypeFrames: behavioural subtyping on frames for named function types with a contract
+// (ContainerOption, BarOption): every function of the module that is converted to the type,
+// or returned as a value of the type, writes only what the contract's modifies clause allows.
+func (P *Program) funcTypeFrames(prop string) []*Obligation {
+	var out []*Obligation
+	for name, ct := range P.FuncType {
+		if !hasProp(ct.Props, prop) || !ct.HasMod || strings.Contains(name, ".") {
+			continue
+		}
+		allowed := map[string]bool{}
+		for _, k := range P.declaredModKeysIface(ct) {
+			allowed[k] = true
+		}
+		if allowed[modAll] {
+			continue
+		}
+		ok := true
+		why := ""
+		n := 0
+		for _, fn := range P.ModFuncs {
+			for _, b := range fn.Blocks {
+				for _, in := range b.Instrs {
+					var val ssa.Value
+					var typ types.Type
+					switch x := in.(type) {
+					case *ssa.ChangeType:
+						val, typ = x.X, x.Type()
+					case *ssa.MakeClosure:
+						val, typ = x, x.Type()
+					case *ssa.Return:
+						for i, r := range x.Results {
+							if nt, isN := types.Unalias(fn.Signature.Results().At(i).Type()).(*types.Named); isN && nt.Obj().Name() == name {
+								val, typ = r, nt
+							}
+						}
+					}
+					if val == nil || typ == nil {
+						continue
+					}
+					nt, isN := types.Unalias(typ).(*types.Named)
+					if !isN || nt.Obj().Name() != name || !inModule(nt.Obj().Pkg()) {
+						continue
+					}
+					var target *ssa.Function
+					switch v := val.(type) {
+					case *ssa.MakeClosure:
+						target, _ = v.Fn.(*ssa.Function)
+					case *ssa.Function:
+						target = v
+					case *ssa.ChangeType:
+						if mc, isMC := v.X.(*ssa.MakeClosure); isMC {
+							target, _ = mc.Fn.(*ssa.Function)
+						} else if f, isF := v.X.(*ssa.Function); isF {
+							target = f
+						}
+					}
+					if target == nil {
+						continue
+					}
+					n++
+					for k := range P.ModSet(target) {
+						if !allowed[k] && !strings.HasPrefix(k, "#spawn") {
+							ok = false
+							why = relName(target) + " writes " + k
+						}
+					}
+				}
+			}
+		}
+		out = append(out, staticOb("static/functype-frame:"+name, "?", fmt.Sprintf("every module function used as a %s (%d found) writes only what its contract allows", name, n), ok, why))
+	}
+	return out
 }
